@@ -440,7 +440,8 @@ func c10Sync(cell c10Cell, rng *rand.Rand, flips int) []obj {
 	for k, m := range muts {
 		var mu sync.Mutex
 		sent := 0
-		mem := &discovery.Member{Membership: []uint16{1, 2, 3, 4}, ID: 1, Logger: scripted.Logger{},
+		// (a membership larger than the number of parties the synchronisation expects: more peers than expected may answer)
+		mem := &discovery.Member{Membership: []uint16{1, 2, 3, 4, 5, 6, 7}, ID: 1, Logger: scripted.Logger{},
 			Broadcast: func([]byte) { mu.Lock(); sent++; mu.Unlock() }, Send: func([]byte, uint16) { mu.Lock(); sent++; mu.Unlock() }}
 		ctx, cancel := context.WithCancel(context.Background())
 		switch cell.St {
@@ -466,6 +467,14 @@ func c10Sync(cell c10Cell, rng *rand.Rand, flips int) []obj {
 		p, hung := guarded(func() {
 			mem.HandleMessage(2, m)
 			mem.HandleMessage(3, m)
+			if cell.Cls == "valid" {
+				// every other member sends the same kind of message under its own tag, twice
+				for round := 0; round < 2; round++ {
+					for id := uint16(2); id <= 7; id++ {
+						mem.HandleMessage(id, discovery.VerifEncode(ty, tagOf(id), []uint16{1, 2, 3}))
+					}
+				}
+			}
 		})
 		probe := true
 		if p == "" && !hung && cell.St == "probing" {
